@@ -267,6 +267,7 @@ func (c *Check) equivalence() {
 		harnessFail("equivalence stage: %d result lines for %d inputs", len(lines), c.Corpus.Len())
 	}
 	var bad []string
+	var badRV []*refViolation
 	for i, l := range lines {
 		p := strings.Split(l, "\t")
 		for a := 0; a < 2; a++ {
@@ -277,6 +278,10 @@ func (c *Check) equivalence() {
 			c.EquivN++
 			if r != c.Corpus.Ref[a][i] {
 				c.EquivBad++
+				if len(badRV) < 3 {
+					badRV = append(badRV, &refViolation{What: "a single sequential caller gets a different result than a fresh process (the library's own goroutines interleave differently)", API: a,
+						Input: common.B64(c.Corpus.In[i]), A: c.Corpus.Ref[a][i], B: r, Idx: i, Kind: "fresh"})
+				}
 				if len(bad) < 5 {
 					bad = append(bad, fmt.Sprintf("api=%d input=%q instrumented=%q shipped=%q", a, trunc(c.Corpus.In[i], 80), trunc(r, 60), trunc(c.Corpus.Ref[a][i], 60)))
 				}
@@ -301,6 +306,9 @@ func (c *Check) equivalence() {
 			// the reference passes already disagree among themselves: the library is
 			// history dependent, equivalence cannot be expected; go on.
 			c.Log("equivalence: %d differences, but the reference passes already disagree (history dependence); continuing", c.EquivBad)
+		} else if pr.Summary.Spawned > 0 && c.spawnedMismatch(badRV) {
+			// the library starts goroutines of its own: one caller is already a
+			// concurrent program, and the difference was reproduced as an explicit run
 		} else if clockOrRand {
 			// a result that follows the (simulated) clock or a random draw is not a function of the input
 			for _, b := range bad {
@@ -832,9 +840,13 @@ func (c *Check) searchVariant(name string, firstWorker, procs, runsPer int) {
 	hp := c.NCPU
 	per := (total/4 + hp - 1) / hp // a quarter of the history sweep
 	per = (per + 127) / 128 * 128
-	parallel(hp+procs, c.NCPU, func(i int) {
+	parallel(hp+procs+4, c.NCPU, func(i int) {
 		var ses *workerlib.Session
-		if i < hp {
+		if i >= hp+procs {
+			// burst workers on the variant (bursts teach adaptive structures fast)
+			k := i - hp - procs
+			ses = &workerlib.Session{Mode: "soak", Corpus: c.CorpusP, Seed: c.Seed, Worker: k, Runs: 20000, Variant: name, StepNS: 1, DistinctPath: c.distinctPath()}
+		} else if i < hp {
 			from, to := i*per, (i+1)*per
 			if to > total {
 				to = total
@@ -902,7 +914,11 @@ func (c *Check) sweepLongPairs() {
 		if from >= to {
 			return
 		}
-		ses := &workerlib.Session{Mode: "longpairs", Corpus: c.CorpusP, Seed: c.Seed, Worker: i, From: from, To: to, SyncHeavy: c.SyncSeen, NSites: len(c.E.Report.Sites), DistinctPath: c.distinctPath()}
+		stride := 3
+		if c.Tier == "thorough" {
+			stride = 1
+		}
+		ses := &workerlib.Session{Mode: "longpairs", Corpus: c.CorpusP, Seed: c.Seed, Worker: i, From: from, To: to, Runs: stride, SyncHeavy: c.SyncSeen, NSites: len(c.E.Report.Sites), DistinctPath: c.distinctPath()}
 		pr := runWorker(c.E, ses, 1, 15*time.Minute)
 		if err := procOK(pr); err != nil {
 			harnessFail("long-pair sweep: %v", err)
@@ -1092,5 +1108,65 @@ func (c *Check) sweepChains() {
 			harnessFail("chain sweep: %v", err)
 		}
 		c.Agg.add("chain_sweep", pr)
+	})
+}
+
+// spawnedMismatch: the sequential pass of a library that spawns goroutines
+// differs from the fresh-process reference. Reproduce one difference as an
+// explicit simulated run (history window + seeded policies); true if a
+// violation was recorded.
+func (c *Check) spawnedMismatch(rvs []*refViolation) bool {
+	for _, rv := range rvs {
+		if v, session := c.refToSession(rv); v != nil {
+			pr := &ProcResult{Session: &workerlib.Session{Mode: "explicit", Explicit: session}, Violations: []*workerlib.Violation{v}}
+			c.Agg.Violations = append(c.Agg.Violations, &foundViolation{V: v, Proc: pr, Stage: "equivalence", C: c})
+			c.Log("single-caller pass differs from the fresh-process reference; reproduced as a %d-call run with library goroutines", len(session[0].Tasks[0]))
+			return true
+		}
+	}
+	return false
+}
+
+// sweepHugeFirst: one process per (huge input, API): the huge call first, then concurrent ordinary calls.
+func (c *Check) sweepHugeFirst() {
+	n := len(workerlib.HugeList(c.Corpus)) * 2
+	parallel(n, c.NCPU, func(i int) {
+		ses := &workerlib.Session{Mode: "hugefirst", Corpus: c.CorpusP, Seed: c.Seed, Worker: i, From: i / 2, Runs: i & 1, NSites: len(c.E.Report.Sites), DistinctPath: c.distinctPath()}
+		pr := runWorker(c.E, ses, 1, 15*time.Minute)
+		if err := procOK(pr); err != nil {
+			harnessFail("huge-first sweep: %v", err)
+		}
+		c.Agg.add("huge_first_sweep", pr)
+	})
+}
+
+// sweepColdBurst: one fresh process per (burst candidate, API); variant "" or a configuration variant.
+func (c *Check) sweepColdBurst(variant string, perAPI int) {
+	var jobs [][2]int
+	for api := 0; api < 2; api++ {
+		n := len(workerlib.BurstCandidates(c.Corpus, uint8(api)))
+		if n == 0 {
+			continue
+		}
+		r := simrt.NewRNG(c.Seed ^ uint64(0xb0457+api))
+		seen := map[int]bool{}
+		for k := 0; k < perAPI && len(seen) < n; k++ {
+			i := r.Intn(n)
+			if perAPI >= n {
+				i = k
+			}
+			if !seen[i] {
+				seen[i] = true
+				jobs = append(jobs, [2]int{i, api})
+			}
+		}
+	}
+	parallel(len(jobs), c.NCPU, func(k int) {
+		ses := &workerlib.Session{Mode: "coldburst", Corpus: c.CorpusP, Seed: c.Seed, Worker: k, From: jobs[k][0], Runs: jobs[k][1], Variant: variant, StepNS: 1, DistinctPath: c.distinctPath()}
+		pr := runWorker(c.E, ses, 1, 10*time.Minute)
+		if err := procOK(pr); err != nil {
+			harnessFail("cold-burst sweep: %v", err)
+		}
+		c.Agg.add("cold_burst_sweep"+variant, pr)
 	})
 }
